@@ -9,7 +9,8 @@
     ops      1 p vk payload..   assign property p (index in declaration order):
                                 vk 0 str (code points), 1 int (decimal text), 2 bool (0/1),
                                 3 None, 4 datetime (y m d H M S us aware sign abs-offset),
-                                5 date (y m d), 6 other object (its str as code points)
+                                5 date (y m d), 6 other object (its str as code points),
+                                7 int 10^k - delta (k delta)
              2 p x text..       write the text of the child element of p directly
                                 (get_or_add), x = 1: with xsi:type dcterms:W3CDTF, else without
              3                  save and re-open (identity on the model state)
@@ -47,6 +48,7 @@ Definition parse_pyv (l : list N) : option pyv :=
       end
   | 5%N :: y :: m :: d :: _ => Some (VDate (zN y) (zN m) (zN d))
   | 6%N :: s => Some (VOther s)
+  | 7%N :: k :: delta :: _ => Some (VInt (10 ^ zN k - zN delta)%Z)
   | _ => None
   end.
 
